@@ -266,7 +266,9 @@ def run_network(spec, walk, ctx, case):
             ctx.count('backlogs_of_source_changes')
             src = created[spec['sources'][0]]
             v0 = spec['init'][spec['sources'][0]]
-            for k in range(2 * (2 * state['n'] + 3)):
+            # (an odd number of puts: the last one restores the initial value v0, which is what
+            # the oracle's source vector assumes)
+            for k in range(2 * (2 * state['n'] + 3) + 1):
                 if not sim.alive():
                     break
                 edzed.ExtEvent(src, 'put').send(bool(k % 2) != bool(v0))
